@@ -154,6 +154,12 @@ func RunCase(r *vh.Run, c Case, sample bool) {
 	var s *Session
 	for attempt := 0; attempt < 3; attempt++ {
 		plan := Gen(r.Rng(c.Stream, c.Idx), c.Pf)
+		if c.Probe != "" {
+			if plan = probePlan(c.Probe); plan == nil {
+				r.Inconclusive("unknown probe", c.Probe)
+				return
+			}
+		}
 		s = &Session{Plan: plan, Case: c, Prop: c.Pf.Prop}
 		s.Run()
 		if len(s.Findings) > 0 || s.Completed {
@@ -169,7 +175,12 @@ func RunCase(r *vh.Run, c Case, sample bool) {
 	}
 	for _, f := range s.Findings {
 		w := map[string]interface{}{"detail": f.Witness, "plan": s.Plan.Describe(40)}
-		r.ViolationCase(c, c.Pf.Prop+":"+f.Clause+":"+f.Class, f.What, w)
+		sig := c.Pf.Prop + ":" + f.Clause + ":" + f.Class
+		if c.Probe != "" {
+			sig = c.Pf.Prop + ":x-net-limit:" + c.Probe
+			w["observed_as"] = f.Clause + ":" + f.Class
+		}
+		r.ViolationCase(c, sig, f.What, w)
 	}
 	if len(s.Findings) > 0 {
 		return
